@@ -25,7 +25,12 @@ import (
 
 type RNG struct{ s uint64 }
 
-func NewRNG(seed uint64) *RNG { return &RNG{s: seed*0x9E3779B97F4A7C15 + 0x1234567} }
+// NewRNG scrambles the seed first: without it NewRNG(n+1) is NewRNG(n)'s stream shifted by one step.
+func NewRNG(seed uint64) *RNG {
+	r := &RNG{s: seed*0x9E3779B97F4A7C15 + 0x1234567}
+	r.s = r.Next() * 0xD1342543DE82EF95
+	return r
+}
 func (r *RNG) Next() uint64 {
 	r.s += 0x9E3779B97F4A7C15
 	z := r.s
